@@ -11,7 +11,7 @@ for l in open('/verif/properties.jsonl'):
 p = props[pid]
 prop = f"Property {pid}: {p['title']}\n\nStatement: {p['statement']}\n\nQuantified over: {p['quantifier']['text']}\n\nCode the property is anchored in: {', '.join(p['anchors']['files'])}\n"
 open(f'/tmp/prop-{pid}.txt', 'w').write(prop)
-base = subprocess.run(['python3', '/tmp/agent_prompt.py', pid, wid], capture_output=True, text=True).stdout
+base = subprocess.run(['python3', os.path.join(os.path.dirname(os.path.abspath(__file__)), 'agent_prompt.py'), pid, wid], capture_output=True, text=True).stdout
 prior = []
 for d in sorted(os.listdir('/verif/seeded')):
     if d[:3] != pid or not os.path.isfile(f'/verif/seeded/{d}/meta.json'):
